@@ -29,7 +29,7 @@ ASSUMPTIONS = ["nvmon.ref exact reference for vertex positions (uv within 1e-12 
 FLOORS = {'quick': {'topology': 150, 'vertex-on-surface': 1500, 'quads': 100, 'trim-cells': 1000, 'obj': 60, 'off': 60, 'stl-ascii': 60,
                     'stl-binary': 60, 'container': 30},
           'thorough': {'topology': 1500, 'vertex-on-surface': 15000, 'trim-cells': 10000}}
-MANDATORY_TAGS = ['partial-evaluate-before:iso', 'far-from-origin', 'export:spacing-after-tessellation', 'mesh:kept-across-edit', 'partial-evaluate-before', 'spacing1', 'spacing>=2', 'spacing>=3', 'spacing:not-dividing', 'rational', 'trim:freeform', 'trim:spline', 'trim:reversed', 'trim:clockwise', 'trim:non-unit-domain', 'trim:added-after-tessellation', 'trim:setter-replaces', 'tessellator:reinstalled-after-edit', 'container', 'container:tessellator-replaced', 'quad:as-surface-tessellator', 'export:quad-mesh',
+MANDATORY_TAGS = ['container:element-edited-after-mesh-read', 'partial-evaluate-before:iso', 'far-from-origin', 'export:spacing-after-tessellation', 'mesh:kept-across-edit', 'partial-evaluate-before', 'spacing1', 'spacing>=2', 'spacing>=3', 'spacing:not-dividing', 'rational', 'trim:freeform', 'trim:spline', 'trim:reversed', 'trim:clockwise', 'trim:non-unit-domain', 'trim:added-after-tessellation', 'trim:setter-replaces', 'tessellator:reinstalled-after-edit', 'container', 'container:tessellator-replaced', 'quad:as-surface-tessellator', 'export:quad-mesh',
                   'quad', 'non-unit-domain', 'export:file']
 TECHNIQUE = ("runtime monitoring: structural + exact-geometric oracle over every tessellation the workload produces (ids, indices, "
              "orientation, exact area cover, edge incidence, Euler characteristic, vertex = surface(uv)), cell-classification oracle "
@@ -686,6 +686,44 @@ def check_container(case, ctx):
     ctx.check(nv_own == len(es3) * m3 * m3 and len(ms3.vertices) == len(es3) * n * n, 'container/stale-after-other-request',
               'container of %d surfaces sampled %d x %d, container sample_size %d: tessellate(delta=False) gives %d vertices, tessellate() '
               'afterwards %d (expected %d, then %d)' % (len(es3), m3, m3, n, nv_own, len(ms3.vertices), len(es3) * m3 * m3, len(es3) * n * n),
+              what='container')
+    # (fifth hunt) an element is edited after the mesh of the container has been read: the mesh read next lies on the surfaces as they
+    # are now (vertex by vertex, at the parameters the vertices carry), with the arguments of the request served last
+    from geomdl import operations as ops_
+    es4 = [G.build(sd) for sd in case['shapes']]
+    ms4 = multi.SurfaceContainer(*es4)
+    ms4.sample_size = max(3, n - 1)
+    spacing = rng.choice([1, 1, 2])
+    if spacing > 1:
+        ms4.tessellate(vertex_spacing=spacing)
+    nv_before = len(ms4.vertices)
+    nf_before = len(ms4.faces)
+    how = rng.choice(['element-translate', 'container-translate-inplace', 'element-ctrlpts'])
+    k_ = rng.randrange(len(es4))
+    if how == 'element-translate':
+        ops_.translate(es4[k_], [3.0 * sc, -2.0 * sc, 1.5 * sc], inplace=True)
+    elif how == 'container-translate-inplace':
+        ops_.translate(ms4, [3.0 * sc, -2.0 * sc, 1.5 * sc], inplace=True)
+    else:
+        es4[k_].ctrlpts = [[c * 0.5 + sc for c in p_] for p_ in es4[k_].ctrlpts]
+    ctx.tag('container:element-edited-after-mesh-read')
+    V4 = ms4.vertices
+    ok4 = len(V4) == nv_before and len(ms4.faces) == nf_before
+    bad4 = None
+    if ok4:
+        per = nv_before // len(es4)
+        for k2, e_ in enumerate(es4):
+            S4 = G.defn_of(e_)
+            for v_ in V4[k2 * per:(k2 + 1) * per][::max(1, per // 7)]:
+                ex = [float(x) for x in S4.point(tuple(v_.uv))]
+                if not all(abs(a - b) <= 1e-9 * 10 * sc for a, b in zip(v_.data, ex)):
+                    bad4 = (k2, tuple(v_.uv), list(v_.data), ex)
+                    break
+            if bad4:
+                break
+    ctx.check(ok4 and bad4 is None, 'container/mesh-stale-after-element-edit', 'mesh of a container read, then %s, mesh read again: %s'
+              % (how, 'the vertex at %r of surface %d is %r, the surface is at %r there' % (bad4[1], bad4[0], bad4[2], bad4[3]) if bad4 else
+                 '%d vertices / %d faces, before the edit %d / %d (vertex_spacing=%d)' % (len(V4), len(ms4.faces), nv_before, nf_before, spacing)),
               what='container')
     if rng.random() < 0.5 and n >= 6:
         # replacing the tessellator of a container whose mesh has been read: the new tessellator's mesh must be reported
